@@ -84,6 +84,50 @@ fn c02_targets() -> R {
     Ok(())
 }
 
+/// envelopes that already contain obscured elements: obscure once (any single position, any action),
+/// then obscure the result again with another target set / mode / action
+fn c02_two_pass() -> R {
+    let cat = if rt::thorough() { spec::catalogue(7, false, false, true) } else { spec::catalogue(5, false, false, false) };
+    let extra = vec![
+        n(w(n(l(1), vec![a(l(2), l(3))])), vec![a(l(4), l(5))]),
+        n(l(1), vec![a(l(2), w(l(3))), a(l(4), l(5))]),
+        w(w(n(l(1), vec![a(l(2), l(3))]))),
+        n(l(1), vec![n(a(l(2), l(3)), vec![a(l(4), l(5))])]),
+    ];
+    let i = choice(cat.len() + extra.len());
+    let s = if i < cat.len() { &cat[i] } else { &extra[i - cat.len()] };
+    let e = build(s);
+    let ps = positions(&e);
+    let first = &ps[choice(ps.len())];
+    let how1 = choice(3);
+    rt::assume(!(how1 == 2 && matches!(first.kind, Kind::Elided | Kind::Encrypted)))?;
+    op("elide_removing_set_with_action (first pass)");
+    let r1 = e.elide_removing_set_with_action(&to_set(&[first.d]), &action(how1));
+    ensure!(dg(&r1) == dg(&e), "root digest changed by obscuring", "first pass");
+    // second pass over the already-obscured envelope
+    let ds = distinct_digests(&e);
+    let mut t: HashSet<D> = HashSet::new();
+    let k = choice(3);
+    let mut lo = 0;
+    for _ in 0..k { rt::assume(lo < ds.len())?; let i = lo + choice(ds.len() - lo); t.insert(ds[i]); lo = i + 1; }
+    let revealing = flag();
+    let how2 = choice(3);
+    let exp = expected_elision(&r1, &t, revealing);
+    rt::assume(!outside(&r1, &exp, how2))?;
+    rt::note(format!("{} first {:?}/{} then {} {:?} action {}", s.show(), first.path, how1, if revealing { "revealing" } else { "removing" }, t.len(), how2));
+    op("elide_set_with_action (second pass)");
+    let tset = to_set(&t.iter().cloned().collect::<Vec<_>>());
+    let r2 = r1.elide_set_with_action(&tset, revealing, &action(how2));
+    ensure!(dg(&r2) == dg(&e), "root digest changed by obscuring an already obscured envelope", "{}", s.show());
+    let p1 = positions(&r1);
+    for p in positions(&r2) {
+        let o = crate::must_some!(at(&p1, &p.path), "result has a position the original lacks");
+        ensure!(o.d == p.d, "digest at a surviving position changed", "second pass at {:?}", p.path);
+    }
+    if let Err(m) = check_tree(&r2) { return rt::viol("stored digests disagree with recomputation after obscuring", m); }
+    Ok(())
+}
+
 /// whole-envelope forms: elide(), encrypt_subject, encrypt, compress, compress_subject
 fn c02_whole() -> R {
     let cat = if rt::thorough() { spec::catalogue(9, true, false, true) } else { spec::catalogue(7, true, false, true) };
@@ -201,6 +245,9 @@ pub fn prop_c02() -> Prop {
         scenarios: vec![
             Scenario { name: "targets", f: c02_targets, thorough_only: false,
                 bounds: "every shape of <=7 elements (quick) / <=9 (thorough) + 16 larger hand-written shapes (incl. already obscured children, repeated content, node-subject-node) + shapes with known values <=5 x target set = every subset of the shape's distinct element digests when it has <=7 (9) of them, else every set of <=2 (3) digests, optionally plus an absent digest x {removing, revealing} x {Elide, Encrypt, Compress} x every digest order. Outside: Compress applied to an already elided/encrypted element (C16)",
+                api: API },
+            Scenario { name: "two_pass", f: c02_two_pass, thorough_only: false,
+                bounds: "every shape of <=5 elements + 4 nested shapes (quick) / <=7 + 16 larger shapes (thorough) x first pass: any single position obscured with any action x second pass over the result: every target set of <=2 digests x {removing, revealing} x 3 actions x every digest order",
                 api: API },
             Scenario { name: "whole", f: c02_whole, thorough_only: false,
                 bounds: "every shape of <=7 (9) elements with known values + larger shapes x {elide, encrypt_subject, encrypt/decrypt, compress, compress_subject} x every digest order",
